@@ -2,6 +2,7 @@
    Output per line: `ok [tags]` or `FAIL [M][S] model=<…> spec=<…> got=<…>`. -/
 import Driver.C01
 import Driver.C15
+import Driver.C07
 import Driver.C14
 import Driver.C19
 
@@ -27,7 +28,7 @@ def parseCfg (toks : List String) : Conf :=
 def dispatch (c : Conf) (op : String) (args : List String) (got : String) : Option Verdict :=
   let e01 : C01.Env := { cfg := { w := c.w, cap := c.size }, digs := c.digs }
   let latch := (c.extra.lookup "latch").getD "1" == "1"
-  (C01.handle e01 op args) <|> (C14.handle op args) <|> (C15.handle c.w c.size op args got) <|> (C19.handle latch op args)
+  (C01.handle e01 op args) <|> (C07.handle e01.cfg op args) <|> (C14.handle op args) <|> (C15.handle c.w c.size op args got) <|> (C19.handle latch op args)
 
 def processLine (c : Conf) (line : String) : String :=
   match line.splitOn " => " with
